@@ -325,6 +325,18 @@ pub fn gen_c10(tier: Tier, seed: u64, em: &mut Emitter) {
         }
         em.emit_k(if form == 0 { "running-pairs" } else { "running-single" }, 101, inp);
     }
+    // "all lengths": one very long running form per kind of unit (more than 2^16 units after one
+    // number selection, no reset in between) -- per-scanner counters
+    for &form in &[6i64, 96, 97, 0] {
+        let c = r.below(16) as i64;
+        let mut inp = vec![c, r.below(2) as i64, boundary14(&mut r), form, 0, 0];
+        let len = 65_600 + r.below(10);
+        let cnt = if form == 0 { 2 * len } else { len };
+        for _ in 0..cnt {
+            inp.push(r.below(128) as i64);
+        }
+        em.emit_k("running-very-long", 101, inp);
+    }
 }
 
 /// Abstract alphabet for the bounded-exhaustive part: two values per byte class.
